@@ -161,7 +161,7 @@ Lemma rm_call_devs w f : f_devs (rm_call w f) = f_devs w /\ f_groups (rm_call w 
 Proof. unfold rm_call. cbv zeta. destruct (_ =? 0); [auto|]. unfold failf. destruct (_ =? 0); auto. Qed.
 
 Lemma generate_devs w d : f_devs (fst (generate w d)) = f_devs w /\ f_groups (fst (generate w d)) = f_groups w.
-Proof. unfold generate. destruct (d_gen_batch (getd w d) <=? 0); cbn; auto. Qed.
+Proof. unfold generate. destruct (gen_size (getd w d) =? 0); cbn; auto. Qed.
 Lemma getd_other_fields0 w w' d : f_devs w' = f_devs w -> getd w' d = getd w d.
 Proof. unfold getd. intros ->. reflexivity. Qed.
 
@@ -573,7 +573,7 @@ Proof. unfold run_cbops. apply R_fold. intros. apply R_run_cbop. Qed.
 
 
 Lemma generate_nextid w d : exists z, fst (generate w d) = w <| f_next_id := z |>.
-Proof. unfold generate. destruct (d_gen_batch (getd w d) <=? 0); cbn; eexists; reflexivity. Qed.
+Proof. unfold generate. destruct (gen_size (getd w d) =? 0); cbn; eexists; reflexivity. Qed.
 
 Lemma R_finish_cycle fuel w d : R w (finish_cycle fuel nw w d).
 Proof.
